@@ -304,6 +304,43 @@ def r2b_stateless_parsers(cx):
         cx.require(not bad, bad[0] if bad else fn, "%s.process keeps no state on the (shared) parser object" % name, construct=short(bad[0]) if bad else "%s.process" % name)
 
 
+def _charset(e, m, counts, depth=0):
+    """The set of characters a constant set expression denotes (set()/frozenset() of string constants and string.* tables, combined with
+    - | & ^, module-level names bound once), or None."""
+    import string as _string
+    if depth > 8:
+        return None
+
+    def text(x):
+        if isinstance(x, ast.Constant) and isinstance(x.value, str):
+            return x.value
+        if isinstance(x, ast.Attribute) and isinstance(x.value, ast.Name) and x.value.id == "string" and m.imports.get("string", "string") == "string" \
+                and x.attr in ("printable", "whitespace", "ascii_letters", "ascii_lowercase", "ascii_uppercase", "digits", "punctuation", "hexdigits", "octdigits"):
+            return getattr(_string, x.attr)
+        if isinstance(x, ast.BinOp) and isinstance(x.op, ast.Add):
+            a, b = text(x.left), text(x.right)
+            return None if a is None or b is None else a + b
+        if isinstance(x, ast.Name) and counts.get(x.id) == 1 and x.id in m.top:
+            return text(m.top[x.id])
+        return None
+    if isinstance(e, ast.Call) and call_name(e) in ("set", "frozenset") and len(e.args) == 1 and not e.keywords:
+        t = text(e.args[0])
+        if t is not None:
+            return set(t)
+        return _charset(e.args[0], m, counts, depth + 1)
+    if isinstance(e, ast.Call) and call_name(e) in ("set", "frozenset") and not e.args and not e.keywords:
+        return set()
+    if isinstance(e, ast.BinOp) and isinstance(e.op, (ast.Sub, ast.BitOr, ast.BitAnd, ast.BitXor)):
+        a, b = _charset(e.left, m, counts, depth + 1), _charset(e.right, m, counts, depth + 1)
+        if a is None or b is None:
+            return None
+        return a - b if isinstance(e.op, ast.Sub) else a | b if isinstance(e.op, ast.BitOr) else a & b if isinstance(e.op, ast.BitAnd) else a ^ b
+    if isinstance(e, ast.Name) and counts.get(e.id) == 1 and e.id in m.top:
+        return _charset(m.top[e.id], m, counts, depth + 1)
+    t = text(e)
+    return set(t) if t is not None else None
+
+
 def r3_taglang(cx):
     cx.rule("C19.R3", "tag-expression grammar: precedence stratification and operator table", floor=10)
     m = cx.repo.module("insights.core.taglang")
@@ -342,7 +379,14 @@ def r3_taglang(cx):
     p = d["parse"]
     cx.require(U(p) == "expr << EOF", p, "the top rule requires the whole input to be consumed", construct="parse = %s" % U(p))
     b = d["bare"]
-    cx.require("set(')&,|')" in U(b), b, "a bare tag cannot swallow an operator or a closing parenthesis", construct="bare = %s" % short(b, 120))
+    cs = _charset(b.args[0], m, counts) if isinstance(b, ast.Call) and call_name(b) == "String" and len(b.args) == 1 and not b.keywords else None
+    if cs is not None:
+        # the character class of a bare tag, computed from the constant set expression
+        hit = sorted(cs & set(")&,| \t\n"))
+        cx.require(not hit and bool(cs), b, "a bare tag cannot swallow an operator, a closing parenthesis or white space", construct="bare = %s  (%d characters%s)" % (
+            short(b, 100), len(cs), "; contains %r" % "".join(hit) if hit else ""))
+    else:
+        cx.require("set(')&,|')" in U(b), b, "a bare tag cannot swallow an operator or a closing parenthesis", construct="bare = %s" % short(b, 120))
     op = m.func("oper", "C19.R3")
     ifs = [s for s in walk_body(op.body) if isinstance(s, ast.If)]
     tbl = dict((U(s.test), U(s.body[0])) for s in ifs)
